@@ -78,6 +78,7 @@ theorem rt : (sh : Shape) → keysOK sh = true → (v : CVal) → wt sh v = true
   | .num, _, v, hw => by cases v <;> simp [wt] at hw; simp [encode, decode, norm]
   | .bool, _, v, hw => by cases v <;> simp [wt] at hw; simp [encode, decode, norm]
   | .hole, _, v, hw => by cases v <;> simp [wt] at hw; simp [encode, decode, norm]
+  | .hmap, _, v, hw => by cases v <;> simp [wt] at hw; simp [encode, decode, norm, hw]
   | .struct fs, hk, v, hw => by
     cases v <;> simp [wt] at hw
     rename_i vs
@@ -202,6 +203,7 @@ theorem en : (sh : Shape) → (v : CVal) → wt sh v = true → encode sh (norm 
   | .num, v, hw => by cases v <;> simp [wt] at hw; simp [norm]
   | .bool, v, hw => by cases v <;> simp [wt] at hw; simp [norm]
   | .hole, v, hw => by cases v <;> simp [wt] at hw; simp [norm]
+  | .hmap, v, hw => by cases v <;> simp [wt] at hw; simp [norm]
   | .struct fs, v, hw => by
     cases v <;> simp [wt] at hw
     simp [norm, encode, enF fs _ hw]
@@ -244,6 +246,7 @@ theorem wt_zero : (sh : Shape) → keysOK sh = true → wt sh (zero sh) = true
   | .num, _ => by simp [zero, wt]
   | .bool, _ => by simp [zero, wt]
   | .hole, _ => by simp [zero, wt]
+  | .hmap, _ => by simp [zero, wt, isObjOrNull]
   | .struct fs, h => by simp only [keysOK] at h; simp [zero, wt, wtF_zero fs h]
   | .slice e, _ => by simp [zero, wt, wtL]
   | .map e, _ => by simp [zero, wt, wtM]
@@ -289,6 +292,11 @@ theorem dw : (sh : Shape) → keysOK sh = true → (j : Json) → (v : CVal) →
   | .num, _, j, v, h => by cases j <;> simp [decode] at h <;> subst h <;> simp [wt]
   | .bool, _, j, v, h => by cases j <;> simp [decode] at h <;> subst h <;> simp [wt]
   | .hole, _, j, v, h => by simp [decode] at h; subst h; simp [wt]
+  | .hmap, _, j, v, h => by
+    simp only [decode] at h
+    split at h
+    · rename_i ho; simp at h; subst h; simp [wt, ho]
+    · simp at h
   | .struct fs, hk, j, v, h => by
     simp only [keysOK] at hk
     cases j <;> simp [decode] at h
